@@ -180,8 +180,7 @@ class InterpNDSemi(object):
         if self._compute_d_dvalues:
             derivs_val = np.zeros((n_nodes, len(self.values)), dtype=xi.dtype)
 
-        if self.extrapolated_points is None:
-            self.extrapolated_points = np.zeros(n_nodes, dtype=bool)
+        self.extrapolated_points = np.zeros(n_nodes, dtype=bool)
 
         # Loop over n_nodes because there isn't a way to vectorize.
         for j in range(n_nodes):
